@@ -46,6 +46,20 @@ def dump(crate, features=(), default_features=True, guard=True):
     out = os.path.join(BUILD, 'mir-%s-%s.mir' % (tag, h))
     if os.path.exists(out) and os.path.getsize(out) > 0:
         return out, h, 0.0, True
+    # several checks may want the same dump at once (parallel runs): one produces it, the others wait for the lock and reuse it
+    import fcntl
+    lock = open(os.path.join(BUILD, 'mir-%s.lock' % tag), 'w')
+    fcntl.flock(lock, fcntl.LOCK_EX)
+    try:
+        if os.path.exists(out) and os.path.getsize(out) > 0:
+            return out, h, 0.0, True
+        return _dump_locked(crate_dir, tag, h, out, feats, default_features, guard)
+    finally:
+        fcntl.flock(lock, fcntl.LOCK_UN)
+        lock.close()
+
+
+def _dump_locked(crate_dir, tag, h, out, feats, default_features, guard):
     # remove stale dumps of the same tag
     import re
     for f in os.listdir(BUILD):
@@ -67,7 +81,7 @@ def dump(crate, features=(), default_features=True, guard=True):
     t0 = time.time()
     # touching lib.rs is not allowed (repo is read-only for checks): force re-run by a unique --cfg instead
     cmd += ['--cfg', 'verif_dump_%s_%d' % (h, int(time.time() * 1000))]
-    tmp = out + '.tmp'
+    tmp = out + '.%d.tmp' % os.getpid()
     with open(tmp, 'w') as fo:
         p = subprocess.run(cmd, cwd=crate_dir, env=env, stdout=fo, stderr=subprocess.PIPE, text=True)
     if p.returncode != 0 or os.path.getsize(tmp) == 0:
